@@ -17,6 +17,7 @@ import re
 import specgen
 import runlib
 import execlib
+import patterns
 
 LEVEL = "translation_validation"
 
@@ -70,10 +71,25 @@ def key_of(c):
     return key, what
 
 
+def report_misaligned(ctx, misaligned, cases):
+    """A program whose `inputs_<r>` does not enumerate what the loop over <r> enumerates breaks the side condition under
+    which loop positions index `inputs_<r>` (tools/patterns.py).  The 40 extra executions are the failing-input search;
+    when one of them fails it is reported by the caller as an ordinary wrong result, otherwise the broken obligation is
+    reported without input."""
+    for spec, text, mis, _ in misaligned:
+        same = [c for c in cases if c.text == text]
+        if all(c.result["status"] == "RAN" and c.result["out"] == "OK" for c in same):
+            ctx.violation({"kind": "eager-inputs-misaligned"},
+                          "inputs_%s enumerates `%s` but the loop whose positions index it enumerates `%s`; %d executions agree with the oracle"
+                          % (mis[0][0], mis[0][1], mis[0][2], len(same)), {"yaml": spec.yaml, "text": text, "obligation": "eager_inputs_aligned"},
+                          no_input=True)
+
+
 def run(ctx):
     rng = ctx.rng
     n = 400 if ctx.quick() else 4000
     cases = []
+    misaligned = []
     stats = {"generated": n, "compiled": 0, "rejected": {}, "kinds": {}, "flags": {"frac_nonpow2": 0, "eager_interval": 0, "multi_level_halo": 0},
              "negative_coeff": 0, "two_d": 0}
     for i in range(n):
@@ -83,7 +99,7 @@ def run(ctx):
         try:
             spec = runlib.Spec(y)
             text = spec.compile()
-        except (ValueError, KeyError) as e:    # KeyError: the compiler crashes on some W-outer/Q-inner orders (no program is returned)
+        except Exception as e:    # no program is returned (the unchanged compiler crashes with KeyError on some W-outer/Q-inner orders)
             k = type(e).__name__ + ": " + re.sub(r"[A-Z]\d?\b", "R", str(e))[:60]
             stats["rejected"][k] = stats["rejected"].get(k, 0) + 1
             continue
@@ -97,12 +113,16 @@ def run(ctx):
             stats["negative_coeff"] += 1
         if "P" in es["ranks"]:
             stats["two_d"] += 1
-        for j in range(2 if ctx.quick() else 3):
+        mis = patterns.eager_inputs_aligned(text)
+        if mis:
+            misaligned.append((spec, text, mis, len(cases)))
+        for j in range((2 if ctx.quick() else 3) + (40 if mis else 0)):      # a broken side condition: search for a failing input
             ext = specgen.affine_extents(rng, es)
             data, scal = runlib.gen_inputs(spec, ext, rng, density=rng.choice([1.0, 0.8, 0.5]))
             cases.append(execlib.Case(spec, text, ext, data, scal, extra_ints=syms,
                                       meta={"flags": fl, "kind": kind, "a": es["a"], "b": es["b"], "loop": mp["loop-order"][es["out"]]}))
     execlib.evaluate(cases, "c04")
+    report_misaligned(ctx, misaligned, cases)
     bad = 0
     clean_ok = 0
     for c in cases:
